@@ -241,6 +241,7 @@ def generated_dir_for(unit, repo, work):
 
 def run_verus_unit(unit, repo, work, seed, tier, features=None, tag="", rlimit=30):
     """returns dict with map, failures, undecided, stats"""
+    rlimit = unit.get("rlimit", rlimit)
     wd = unit_workdir(work, unit) + tag
     os.makedirs(wd, exist_ok=True)
     rs = os.path.join(wd, unit["name"] + ".rs")
